@@ -121,6 +121,13 @@ chk("C12",
     "exhaustive enumeration of bounded label pairs, definition placements/orders and inputs; reference-model (spec 6.3 normalisation, first-wins) comparison on the real parser",
     "DESIGN.md section 6, C12")
 
+chk("C19",
+    "Part 1: the two packages are rebuilt with a generated overlay that calls a hook before every statement; under a cooperative scheduler exactly one harness thread runs and every hook call is a scheduling point at which the explorer may preempt. For every multiset of 2 (thorough: 3) operations out of Parse(A), Parse(B), Render through one shared HTMLRenderer, Render through own renderers, Format and Walk on one shared tree, all schedules within the preemption bound are enumerated (bound 1 at statement granularity, bound 2 at first-function-entry granularity; thorough: bound 2 fine, bound 3 coarse, triples); each thread's result must equal its sequential result and the shared tree must be unchanged. "
+    "Part 2: the same thread bodies run free under the race detector in a separate -race build; any report is a violation.",
+    "Statement granularity, small harness inputs; paths the harness does not execute and memory-model effects below statement granularity are outside part 1. The race clause relies on Go's race detector and is not a schedule enumeration (labelled as such in the evidence).",
+    "stateless model checking of the real code under a controlled cooperative scheduler (preemption-bounded enumeration of thread interleavings, CHESS-style) + separate free-running race-detector pass",
+    "DESIGN.md section 6, C19; section 2.3")
+
 # Reasons for properties not (yet) claimed.
 PENDING = {}
 
